@@ -381,6 +381,8 @@ static int cmdRecord(int argc, char **argv)
                 ok = ok && loadPD(*pd2, control, bytes);
                 ev = json{{"e", "RoundTrip"}, {"ret", (int)ok}, {"both", op == 1000 ? 1 : 0}};
                 ev["obs"] = observe(*pd2, env, control);
+                if (op == 1000)
+                    ev["orig"] = observe(pd, env, control);  // lets the check tell the known loss from any other
                 tr.emit(ev);
                 ++roundtrips;
                 continue;
